@@ -12,7 +12,7 @@ MOD = 'mc.props.c18'
 
 FRAMES = {'4x4': (4, 4), '3x5': (3, 5), '16x16': (16, 16)}
 LEVELS = [0, 0.5, 3, 50, 1e4, 5e9]
-MODELS = ['shot-poisson', 'shot-gaussian', 'read', 'dark-fpn', 'dark-rule07', 'psd']
+MODELS = ['shot-poisson', 'shot-gaussian', 'read', 'read-int', 'dark-fpn', 'dark-rule07', 'psd']
 
 
 def dig(a):
@@ -35,6 +35,8 @@ def draw(model, shape, level, seed):
         return lentil.detector.shot_noise(np.full(shape, float(level)), method='gaussian', seed=seed)
     if model == 'read':
         return lentil.detector.read_noise(np.full(shape, float(level)), electrons=max(level, 0.5), seed=seed)
+    if model == 'read-int':        # the frame arrives as integer counts
+        return lentil.detector.read_noise(np.full(shape, int(level), dtype=np.int64 if level > 60000 else np.uint16), electrons=max(level, 0.5), seed=seed)
     if model == 'dark-fpn':
         return lentil.detector.dark_current(rate=max(level, 0.5) * 10, shape=shape, fpn_factor=0.2, seed=seed)
     if model == 'dark-rule07':
@@ -132,13 +134,13 @@ def t_model(arg, acc):
                     se_var = math.sqrt((lam + 3 * lam * lam - lam * lam) / N) if lam else 0      # var of sample variance (Poisson: mu4 = lam + 3 lam^2)
                     if abs(var - lam) > 6 * se_var + (1.0 if model == 'shot-gaussian' else 0):
                         acc.violation(f'{model}:variance', sub, f'variance {var} vs signal {lam} (6 sigma = {6 * se_var:.3g})')
-            if model == 'read':
+            if model in ('read', 'read-int'):
                 sig = max(level, 0.5)
-                noise = X - level
+                noise = X - (level if model == 'read' else int(level))
                 if abs(noise.mean()) > 6 * sig / math.sqrt(N):
-                    acc.violation('read:mean', sub, f'read noise mean {noise.mean()} (6 sigma = {6 * sig / math.sqrt(N):.3g})')
+                    acc.violation(f'{model}:mean', sub, f'read noise mean {noise.mean()} (6 sigma = {6 * sig / math.sqrt(N):.3g})')
                 if abs(noise.std() - sig) > 6 * sig / math.sqrt(2 * N):
-                    acc.violation('read:std', sub, f'read noise std {noise.std()} vs {sig}')
+                    acc.violation(f'{model}:std', sub, f'read noise std {noise.std()} vs {sig}')
             acc.case(sub, outcome=f'{model}-agg')
 
 
@@ -178,12 +180,13 @@ def chk_reject(case, acc, seed):
 
 def _reject_body(case, acc, seed, lentil):
     for method in ('poisson', 'gaussian'):
-        for bad, why in ((np.array([[1.0, -2.0]]), 'negative'), (np.array([[1e19, 5.0]]), 'too-large')):
+        for bad, why in ((np.array([[1.0, -2.0]]), 'negative'), (np.array([[1e19, 5.0]]), 'too-large'), (np.array([[2500.0, -4e-9]]), 'negative'),
+                         (np.array([[-1e-12, 3.0], [3.0, 3.0]]), 'negative'), (-1e-9, 'negative'), (np.array([[7, -1]]), 'negative')):
             if method == 'gaussian' and why == 'too-large':
                 continue
             try:
                 lentil.detector.shot_noise(bad, method=method, seed=3)
-                acc.violation(f'shot-{method}:{why}-accepted', dict(case, method=method, why=why), f'{why} signal accepted')
+                acc.violation(f'shot-{method}:{why}-accepted', dict(case, method=method, why=why, signal=repr(bad)), f'{why} signal {bad!r} accepted')
             except ValueError:
                 pass
             except Exception as e:
